@@ -85,7 +85,25 @@ class TextV:
     prefix: str = ""
     history: Tuple[str, ...] = ()
     parity: Optional[str] = None        # None (any length) | 'even' | 'odd'  -- what a test on len(text) & 1 has established
+    len_lo: int = 1                     # what tests on len(text) have established
+    len_hi: Optional[int] = None
+    digits_only: Optional[bool] = None  # text.isdigit() known true / false
     as_bytes: bool = False              # bytes.fromhex(text): the same digits, two per byte
+
+
+def text_witness(t: "TextV") -> Optional[str]:
+    """a valid hexadecimal numeral that satisfies what the path has established about the text (None if there is none)"""
+    n = t.len_lo
+    if t.parity == "even" and n % 2:
+        n += 1
+    if t.parity == "odd" and n % 2 == 0:
+        n += 1
+    if t.len_hi is not None and n > t.len_hi:
+        return None
+    if t.digits_only:
+        return ("0" * (n - 2) + "10") if n >= 2 else "7"
+    body = ("0" * (n - 1) + "f") if n > 16 else "f" * n
+    return body
 
 
 @dataclass(frozen=True)
